@@ -20,6 +20,10 @@ const DIRECTED_G: &[&str] = &[
     "@X ( ) ( )", "a . ", ". a", "a = = 1", "const", "oneway", "List <", "Map < String ,", "a [ ]", "@",
     // members broken off at every point of their own syntax (the recovery must not reach into the next sibling)
     "void f (", "void f ( in", "int f ( int x ,", "void f ( @A", "void f ( int", "void f ( int x", "void f ( )  =", "void f ( ) = 1 2", "void f ( ) )", "void f",
+    // syntax of the real AIDL language that this grammar does not support (what a maintainer adds next)
+    "int [ 3 ] x", "int [ 4294967296 ] x", "Foo [ 1 ] [ 2 ] y", "const int X = 1 + 2", "const int X = 1 << 2", "const int Y = A | B", "char c = 'a'",
+    "T < U > g", "List < ? > l", "String s = \"a\" + \"b\"", "const int H = 0x1F", "const float F = 1.0f / 2", "int x = - 1", "union U", "Foo . Bar . Baz f ( )",
+    "void f ( int a = 1 )", "void f ( ) throws E", "static int x", "final int y", "int x , y", "const int X = ( 1 )", "@ A int x", "int x = y", "int x = A . B . C",
     "Foo f (", "a . b f ( in a . b", "oneway void f (", "@A void f ( in", "const int", "const int K", "const int K =", "const int K = {", "const int K = { 1 ,",
     "", "int x =", "int x = {", "List < int", "List < int >", "Map < String , int", "Foo [", "Foo [ ] [", "f ( )", "void ( )", "A =", "A = =", "A B", "@A ( x = )",
 ];
